@@ -4,9 +4,11 @@ import TrustVerif.Drv.Common
 /-
 Driver for C11.  Protocol (one case):
   case <n>
+  cv <k> A <lo>:<hi>/...|- <tag>[*<run>]/...|-          composite value `k` of the runtime: an array
+  cv <k> S <hexname>=<tag>/...|-                         ... or a struct (children are defined first)
   rt <programs> <globals> <instances> <io0> <tasks0>     runtime the container is applied to
        programs : `,`-separated hex names | `-`
-       globals  : `,`-separated tags `O` (not an instance) / `I<id>` | `-`
+       globals  : `,`-separated tags `O` (scalar) / `I<id>` (instance) / `C<k>` (composite k) | `-`
        instances: `;`-separated `<id>:<fbKnown 0|1>:<tags|->` | `-`
        io0      : `<inputs>,<outputs>,<memory>` sizes before the apply
        tasks0   : `,`-separated hex task names registered before the apply | `-`
@@ -136,6 +138,7 @@ def showApplyErr : ApplyErr → String
   | .typeMismatch => "TypeMismatch"
   | .nullReference => "NullReference"
   | .undefinedFunctionBlock => "UndefinedFunctionBlock"
+  | .panic => "PANIC"
 
 structure St where
   rt : RtView := { programs := [], globals := [], instances := [] }
@@ -143,30 +146,77 @@ structure St where
   tasks0 : List Bytes := []
   bytes : Bytes := []
   decoded : Option (Except Err Module) := none
+  cvs : Array RVal := #[]
 
 def splitList (sep : String) (s : String) : List String :=
   if s = "-" then [] else s.splitOn sep
 
-def parseTag? (s : String) : Option RVal :=
-  if s = "O" ∨ s = "C" then some .other     -- `C` = struct/array value: not an instance
+def parseTag? (cvs : Array RVal) (s : String) : Option RVal :=
+  if s = "O" then some .other
   else if s.startsWith "I" then (s.drop 1).toNat?.map fun n => .inst (UInt32.ofNat n)
+  else if s.startsWith "C" then (s.drop 1).toNat?.bind fun k => cvs[k]?
   else none
 
-def parseInstance? (s : String) : Option RInstance :=
+def parseInt? (s : String) : Option Int :=
+  if s.startsWith "-" then (s.drop 1).toNat?.map fun n => -(n : Int) else s.toNat?.map fun n => (n : Int)
+
+/-- `<tag>` or `<tag>*<run>` -/
+def parseRun? (cvs : Array RVal) (s : String) : Option (List RVal) :=
+  match s.splitOn "*" with
+  | [t] => (parseTag? cvs t).map fun v => [v]
+  | [t, n] => do
+    let v ← parseTag? cvs t
+    let n ← n.toNat?
+    pure (List.replicate n v)
+  | _ => none
+
+def parseDim? (s : String) : Option (Int × Int) :=
+  match s.splitOn ":" with
+  | [lo, hi] => do
+    let lo ← parseInt? lo
+    let hi ← parseInt? hi
+    pure (lo, hi)
+  | _ => none
+
+def parseField? (cvs : Array RVal) (s : String) : Option (Bytes × RVal) :=
+  match s.splitOn "=" with
+  | [n, t] => do
+    let n ← parseBytes? n
+    let v ← parseTag? cvs t
+    pure (n, v)
+  | _ => none
+
+/-- a `cv` line: the definition of the next composite value -/
+def parseComposite? (cvs : Array RVal) (ws : List String) : Option RVal :=
+  match ws with
+  | [k, "A", dims, elems] => do
+    let k ← k.toNat?
+    if k ≠ cvs.size then none
+    let dims ← (splitList "/" dims).mapM parseDim?
+    let runs ← (splitList "/" elems).mapM (parseRun? cvs)
+    pure (.arr dims runs.flatten)
+  | [k, "S", fields] => do
+    let k ← k.toNat?
+    if k ≠ cvs.size then none
+    let fields ← (splitList "/" fields).mapM (parseField? cvs)
+    pure (.struct fields)
+  | _ => none
+
+def parseInstance? (cvs : Array RVal) (s : String) : Option RInstance :=
   match s.splitOn ":" with
   | [id, known, tags] => do
     let id ← id.toNat?
     let known ← parseBool? known
-    let vars ← (splitList "," tags).mapM parseTag?
+    let vars ← (splitList "," tags).mapM (parseTag? cvs)
     pure { id := UInt32.ofNat id, fbKnown := known, vars }
   | _ => none
 
-def parseRt? (ws : List String) : Option St :=
+def parseRt? (cvs : Array RVal) (ws : List String) : Option St :=
   match ws with
   | [progs, globals, instances, io0, tasks0] => do
     let programs ← (splitList "," progs).mapM parseBytes?
-    let globals ← (splitList "," globals).mapM parseTag?
-    let instances ← (splitList ";" instances).mapM parseInstance?
+    let globals ← (splitList "," globals).mapM (parseTag? cvs)
+    let instances ← (splitList ";" instances).mapM (parseInstance? cvs)
     let io ← (io0.splitOn ",").mapM (·.toNat?)
     let tasks0 ← (splitList "," tasks0).mapM parseBytes?
     match io with
@@ -200,9 +250,13 @@ def step (st : St) (line : String) : St × Option String :=
   | "impl" :: _ => (st, none)
   | "tag" :: _ => (st, none)
   | "#" :: _ => (st, none)
+  | "cv" :: ws =>
+    match parseComposite? st.cvs ws with
+    | some v => ({ st with cvs := st.cvs.push v }, none)
+    | none => (st, some "bad-op")
   | "rt" :: ws =>
-    match parseRt? ws with
-    | some st' => ({ st' with bytes := st.bytes }, none)
+    match parseRt? st.cvs ws with
+    | some st' => ({ st' with bytes := st.bytes, cvs := st.cvs }, none)
     | none => (st, some "bad-op")
   | ["bytes", h] =>
     match parseBytes? h with
@@ -247,6 +301,8 @@ def step (st : St) (line : String) : St × Option String :=
       let head := match err with
         | none => "ok"
         | some e => s!"err {showApplyErr e}"
+      -- an overflow inside `read_by_ref` is a panic of the real call (dev profile): no answer at all
+      if err = some .panic then (st, some "m panic") else
       (st, some s!"m {head} io={io.1},{io.2.1},{io.2.2} tasks={if tasks.isEmpty then "-" else joinWith "," (tasks.map hexOf)}")
   | ["mem"] => (st, some "m ok")
   -- the encoder returned an error for a program the compiler front end accepted: the model of the
